@@ -309,6 +309,17 @@ def run(ctx):
             # only escapes that are well formed and allowed characters: "already escaped"
             s = ''.join(rnd.choice(WELL + list('azAZ09-._~') + (list(":/?#[]@!$&'()*+,;=") if rnd.random() < 0.5 else []))
                         for _ in range(rnd.randint(1, 40))); kind = 'random_escaped'
+        elif shape < 0.47:
+            # an "already escaped"-looking string with exactly ONE character that must be encoded, at the end / start / inside
+            # (line terminators, controls, space, non-ASCII, a lone or malformed '%'): the heuristic must not wave it through
+            body = ''.join(rnd.choice(WELL[:11] + list('azAZ09-._~') + (list(":/?#[]@!$&'()*+,;=") if rnd.random() < 0.5 else []))
+                           for _ in range(rnd.randint(0, 12)))
+            intr = rnd.choice(['\n', '\n', '\r', '\r\n', '\x00', ' ', '\t', '\x0b', '\x0c', '\x1c', '\x7f', '\x85', '\xa0', '\u2028', '\u2029', 'é', '€', '\U0001f600',
+                               '"', '<', '\\', '^', '`', '{', '|', '%', '%4', '%G1', '%\n'])
+            pos = rnd.choice([len(body), len(body), 0, rnd.randint(0, len(body))])
+            while 0 < pos < len(body) and ('%' in body[max(0, pos - 2):pos]):
+                pos -= 1            # (do not split an escape)
+            s = body[:pos] + intr + body[pos:]; kind = 'random_escaped_one_intruder'
         else:
             npieces = rnd.choice([3, 8, 8, 20, 20, 60, 200, 600, 2000])
             s = ''.join(piece() for _ in range(rnd.randint(1, npieces))); kind = 'random'
